@@ -30,6 +30,16 @@ FAILING = ['?([1,2] elem drop drop)', '1 ?((2,3) drop drop drop)', '!(drop)', '(
            '[1, 2, 3] elem ?(pos == 1) "%( drop drop %)"', '1 2 ?(add (3, drop drop drop))']
 MANY = ['(1, 2, 3, 4, 5, 6)', '[1, 2, 3] elem (10, 20)', '(1, 2) {(|A| A, A 1 add)} apply', '"abc" elem', '1 (dup 1 add ?(dup 6 ?lt))*',
         '(1, 2, 3) "%( dup, dup 1 add %)"', '[(1, 2, 3) {1 add}] elem apply', '(1, 2, 3) ?(dup 2 ?ne) [dup, dup]']
+REFFORMS = "?(form (== DW_FORM_ref4, == DW_FORM_ref_addr, == DW_FORM_ref_udata, == DW_FORM_ref1, == DW_FORM_ref2, == DW_FORM_ref8, == DW_FORM_GNU_ref_alt))"
+# one overloaded word fed operands that select different overloads, one after the other
+MIXED1 = ['"abc"', "[1, 2, 3]", '""', "[[]]", "5", "0 0x10 aset", "[]", '"x"']
+WORDS1 = ["length", "elem", "relem", "?empty", "!empty", "value", "type", "pos", "hex", "label", "name", "offset", "address", "low", "high", "dup add"]
+DWMIX = ["entry (attribute, @AT_location elem, @AT_location) label", "(entry, entry attribute) label", "(entry, unit, entry attribute) offset",
+         "(entry, unit) root offset", "(entry, symbol) name", "(entry attribute, entry) (name, label)", "(symbol, entry @AT_location) address",
+         "(entry, symbol, unit) ?(label)", "entry (@AT_type, child)*", "[entry (@AT_type, child, parent)* offset] length",
+         # the same DIE reached with and without a chain of imports, compared both ways round
+         "entry (|D| D attribute " + REFFORMS + " value ?(type == T_DIE) (|T| entry (|E| (T == E), (E == T), (T < E), (E < T))))",
+         "entry (|D| D @AT_type (|T| (T == D), (D == T), (T != D)))"]
 DWQ = ["entry", "raw entry " + dwforest.ROW_QUERY, "entry " + dwforest.ROW_QUERY, "entry attribute [label, form, [value]]", "[unit entry child parent root]",
        "entry abbrev [code, [attribute label]]", "abbrev entry", "symbol [name, label, binding, visibility, size, address]",
        "entry attribute ?AT_location value elem [label, [value]]", "entry ?(child) (|D| D child ?(parent != D))", "entry @AT_name", "entry name",
@@ -83,6 +93,14 @@ def corpus(ctx, quick):
     c03 = importlib.import_module("checks.C03")
     for q in c03.nested_scopes(2, ctx.sub_rng("scopes"), 1000 if quick else 8000):
         cases.append((q, {}))
+    for w in WORDS1:
+        for _ in range(3 if quick else 12):
+            ops = [rng.choice(MIXED1) for _ in range(rng.randint(2, 5))]
+            cases.append(("(%s) %s" % (", ".join(ops), w), {}))
+            cases.append(("[(%s) %s]" % (", ".join(ops), w), {}))
+    for a, b in (('"a" "b"', "[1] [2]"), ("1 2", '"a" "b"'), ("[1] [2]", "0 4 aset 8 12 aset"), ("0 4 aset 2 9 aset", "1 2"), ('"ab" "b"', '[1, 2] [2]')):
+        for w in ("add", "?find", "?starts", "?ends", "?eq", "sub", "?overlaps", "?contains", "overlap"):
+            cases.append(("(%s, %s, %s) %s" % (a, b, a, w), {}))
     for q in FAILING:
         cases.append((q, {}))
     for q in MANY:
@@ -95,6 +113,8 @@ def corpus(ctx, quick):
     files = ([os.path.join(common.REPO, "tests", n) for n in ("a1.out", "nullptr.o", "defaulted.o", "dwz-partial3-1", "y.o", "haschildren_childless", "testfile_const_type")]
              if quick else dwforest.sample_files())
     for f in files:
+        for q in DWMIX:
+            cases.append((q, {"dw": f, "max": 5000}))
         for q in DWQ:
             cases.append((q, {"dw": f, "max": 5000}))
             cases.append((q, {"dw": f, "abandon": 3}))
@@ -189,7 +209,7 @@ def run(ctx):
     common.report_broken_obligations(ctx, oblig, bool(ctx.violations))
     ctx.cov.update({
         "evaluations": evaluations, "distinct_nontrivial": len(cases),
-        "rule": "%d executions on the hooked build (shadow map of live operator states; event log of %d state areas replayed through the extracted lifecycle automaton) and on the ASan+UBSan build with a LeakSanitizer check after every case: generated programs (closures, loops, captures), names captured / shadowed / read across nested applied blocks, %d programs failing at run time inside sub-expressions/closures/splices, result sets abandoned after 0-6 pulls, byte strings from C14's generator (rejected and accepted), DWARF/abbrev/location/symbol queries on sample binaries, complete and abandoned" % (len(cases), areas, len(FAILING)),
+        "rule": "%d executions on the hooked build (shadow map of live operator states; event log of %d state areas replayed through the extracted lifecycle automaton) and on the ASan+UBSan build with a LeakSanitizer check after every case: generated programs (closures, loops, captures), names captured / shadowed / read across nested applied blocks, overloaded words fed operands of different types one after the other (core values, DWARF values), the same DIE with and without an import chain compared both ways round, %d programs failing at run time inside sub-expressions/closures/splices, result sets abandoned after 0-6 pulls, byte strings from C14's generator (rejected and accepted), DWARF/abbrev/location/symbol queries on sample binaries, complete and abandoned" % (len(cases), areas, len(FAILING)),
         "samples": [], "lifecycle_verdicts": verdicts, "known_leaks_seen": leaks_known,
         "traces_validated_against_impl": areas, "violations_by_kind": viol,
         "not_a_theorem": "absence of memory errors / undefined behaviour / leaks in the C++ is sanitizer evidence on the executed corpus, not proved",
